@@ -10,6 +10,10 @@ sys.path.insert(0, HERE)
 
 DRIVERS = {
     "C01": ("gbv.props.sep", {}), "C02": ("gbv.props.sep", {}), "C07": ("gbv.props.sep", {}),
+    "C03": ("gbv.props.c03", {}),
+    "C04": ("gbv.props.c04", {}),
+    "C05": ("gbv.props.c05", {}),
+    "C06": ("gbv.props.fields", {}), "C15": ("gbv.props.fields", {}),
     "C08": ("gbv.props.sep", {}),
     "C09": ("gbv.props.c09", {}),
     "C10": ("gbv.props.c10", {}),
